@@ -460,9 +460,13 @@ const PROJECT_ROOTS: &[&str] = &["./src/components", "./src", "src", ".", "./app
 const ARTDIRS: &[&str] = &[
     "-", "-", "-", "./src", "./src/generated", "./gen", "src/components", "./a/b/c", ".", "./src/../gen", "src//x", "./src/.",
 ];
-const FORMS_ENTRY: &[&str] = &["bare", "bare", "bare", "bare", "bare.n", "call1", "call0", "subst", "twoargs", "nontpl"];
+const FORMS_ENTRY: &[&str] = &[
+    "bare", "bare", "bare", "bare", "bare", "bare", "bare", "bare", "bare.n", "bare.n", "bare.n", "call1", "call1.n", "call0",
+    "subst", "twoargs", "nontpl", "noargs",
+];
 const FORMS_FIELD: &[&str] = &[
-    "call1", "call1", "call1", "call1.n", "bare", "bare.n", "call0", "call2", "subst", "subst1", "noargs", "twoargs", "twoargs1", "nontpl",
+    "call1", "call1", "call1", "call1", "call1", "call1", "call1", "call1.n", "call1.n", "call1.n", "bare", "bare", "bare.n",
+    "call0", "call2", "subst", "subst1", "noargs", "twoargs", "twoargs1", "nontpl",
 ];
 
 fn pk<'a>(r: &mut Rng, xs: &[&'a str]) -> &'a str {
@@ -490,7 +494,11 @@ fn gen_case(r: &mut Rng) -> String {
         0 => lit.push_str("\n  "),
         1 => lit.push_str(&ws(r, true)),
         2 if malformed => {
-            lit.push_str(pk(r, ODD_WS));
+            let o = pk(r, ODD_WS);
+            lit.push_str(o);
+            if o != "\u{feff}" {
+                all_ok = false;
+            }
         }
         _ => {}
     }
@@ -512,9 +520,9 @@ fn gen_case(r: &mut Rng) -> String {
     let t: &str = if malformed && r.chance(1, 5) { all_ok = false; pk(r, BAD_NAMES) } else { pk(r, TYPES) };
     lit.push_str(t);
     // around the dot: mostly glued, often spaced (the parser accepts both)
-    if r.chance(1, 3) { lit.push_str(&ws(r, true)); }
+    if r.chance(1, 4) { lit.push_str(&ws(r, true)); }
     if malformed && r.chance(1, 6) { all_ok = false; lit.push_str(pk(r, &["", "..", ":", "/"])); } else { lit.push('.'); }
-    if r.chance(1, 3) { lit.push_str(&ws(r, true)); }
+    if r.chance(1, 4) { lit.push_str(&ws(r, true)); }
     let f: &str = if malformed && r.chance(1, 5) { all_ok = false; pk(r, BAD_NAMES) } else { pk(r, FIELDS) };
     lit.push_str(f);
     let bad_tail = malformed && r.chance(1, 3);
